@@ -160,6 +160,10 @@ def run(ctx):
     n_opc = opcodes.check_all(ctx)
     from . import c01_leaf
     leaf_cases = c01_leaf.run(ctx)
+    # a reader that refuses an encoding the writer produces breaks decode(encode(v)) = v just as a wrong layout does:
+    # allocation guards must not reject element counts that fit in a frame (rule shared with C09)
+    from . import c09
+    c09.check_alloc_guards(ctx, st)
     check_partial_reads(ctx, st["g"])
     check_builtin_lossless(ctx, st["g"])
     ctx.rule("lay.read-write-ref", n_read + n_write, floor=READ_FLOOR + WRITE_FLOOR,
